@@ -3,6 +3,7 @@ package props
 import (
 	"fmt"
 	"strconv"
+	"sync"
 	"testing"
 	"time"
 
@@ -309,4 +310,69 @@ func c14CRun(c C14CCase, st *kit.Stats) error {
 
 func TestC14C(t *testing.T) {
 	kit.Check(t, kit.Prop[C14CCase]{ID: "C14C", Gen: c14CGen, Run: c14CRun})
+}
+
+// ---- part D: connections that select a database for the first time at the same moment ------------------
+
+type C14DCase struct {
+	Conns     int `json:"conns"`
+	Emulators int `json:"emulators"` // each serves its 15 untouched indexes once
+}
+
+func c14DGen(t *rapid.T) C14DCase {
+	return C14DCase{Conns: rapid.IntRange(2, 10).Draw(t, "conns"), Emulators: rapid.IntRange(1, 4).Draw(t, "emus")}
+}
+
+func c14DRun(c C14DCase, st *kit.Stats) error {
+	for e := 0; e < c.Emulators; e++ {
+		emu := kit.StartEmu("")
+		conns := make([]*kit.Conn, c.Conns)
+		for i := range conns {
+			conns[i] = emu.Dial()
+			conns[i].Do("PING")
+		}
+		for db := 1; db <= 15; db++ {
+			var wg sync.WaitGroup
+			start := make(chan struct{})
+			sel := kit.EncodeCmd("SELECT", strconv.Itoa(db))
+			for _, cn := range conns {
+				wg.Add(1)
+				go func(cn *kit.Conn) {
+					defer wg.Done()
+					<-start
+					cn.Write(sel)
+					cn.Read(5 * time.Second)
+				}(cn)
+			}
+			close(start)
+			wg.Wait()
+			// one namespace per index: what one connection writes there, all the others read
+			for i, cn := range conns {
+				if v, err := cn.Do("SET", "from"+strconv.Itoa(i), "1"); err != nil || v.IsErr() {
+					emu.Stop()
+					return fmt.Errorf("SET: %v %v", v, err)
+				}
+			}
+			for i, cn := range conns {
+				v, err := cn.Do("DBSIZE")
+				if err != nil || !kit.Equal(v, kit.Int(int64(c.Conns))) {
+					emu.Stop()
+					return fmt.Errorf("%d connections sent their first SELECT %d at the same moment and then wrote one key each: connection %d sees DBSIZE %v, not %d: they are not in the same database", c.Conns, db, i, v, c.Conns)
+				}
+			}
+			conns[0].Do("FLUSHDB")
+			if v, _ := conns[c.Conns-1].Do("DBSIZE"); !kit.Equal(v, kit.Int(0)) {
+				emu.Stop()
+				return fmt.Errorf("after FLUSHDB by one of %d connections that selected database %d at the same moment, another one still sees DBSIZE %s", c.Conns, db, v)
+			}
+		}
+		emu.Stop()
+	}
+	st.ClassN("simultaneous-first-selects", 15*c.Emulators)
+	st.NonTrivial(fmt.Sprintf("%+v", c), c)
+	return nil
+}
+
+func TestC14D(t *testing.T) {
+	kit.Check(t, kit.Prop[C14DCase]{ID: "C14D", Gen: c14DGen, Run: c14DRun})
 }
